@@ -59,6 +59,8 @@ var graphs = []graphSpec{
 	{Name: "indep4", N: 4},
 	// diamond with a tail below a (possibly failing) root: every descendant must be cancelled exactly once
 	{Name: "diamond-tail", N: 5, Edges: [][2]int{{0, 1}, {0, 2}, {1, 3}, {2, 3}, {3, 4}}},
+	// a shortcut edge listed BEFORE a sibling: traversals that stop at an already visited node lose t2
+	{Name: "shortcut", N: 4, Edges: [][2]int{{0, 1}, {1, 3}, {0, 3}, {0, 2}}},
 }
 
 type scenario struct {
@@ -508,7 +510,7 @@ func TestVerif(t *testing.T) {
 		vrep.Done()
 		return
 	}
-	scs := scenarios(prop, vrep.Thorough())
+	scs := interleaveByGraph(scenarios(prop, vrep.Thorough()))
 	only := os.Getenv("VERIF_ONLY")
 	var execs, steps int64
 	// iterate the bound: every scenario at bound 1, then every scenario at bound
@@ -550,4 +552,27 @@ func TestVerif(t *testing.T) {
 		vrep.Sample(map[string]any{"scenario": scs[len(scs)/2], "meaning": "real dag.Walker + real TaskWorkerPool on this graph, all schedules with <= bound deviations"})
 	}
 	vrep.Done()
+}
+
+// interleaveByGraph orders the scenarios round-robin over the graph shapes, so
+// that a wall-clock cap at the highest bound still leaves every shape explored
+// at that bound for at least its first scenarios.
+func interleaveByGraph(scs []scenario) []scenario {
+	by := map[string][]scenario{}
+	var order []string
+	for _, sc := range scs {
+		if _, ok := by[sc.Graph]; !ok {
+			order = append(order, sc.Graph)
+		}
+		by[sc.Graph] = append(by[sc.Graph], sc)
+	}
+	var out []scenario
+	for i := 0; len(out) < len(scs); i++ {
+		for _, g := range order {
+			if i < len(by[g]) {
+				out = append(out, by[g][i])
+			}
+		}
+	}
+	return out
 }
